@@ -27,6 +27,9 @@ CLAIMED = {
     "C12": ("exploration", "contracts on the real code: unbounded VCs (pyvc/z3) for StoppingCriterion.__call__ and the simulator's criterion rewrite; Tuner.run executed symbolically against abstract collaborators with ghost protocol state for a bounded number of loop iterations; TuningStatus counters on bounded tables",
             "StoppingCriterion.__call__ == disjunction of its thresholds and SimulatorCallback._modify_stop_criterion keeps every other field: proved for all values. Bounded stand-in for the loop: in Tuner.run (<= 4 iterations, n_workers = 1, arbitrary statuses / decisions / resumes) no trial is started or resumed once the criterion held or a worker is occupied, the run ends only on the criterion or exhaustion, exceeding max_failures raises, and every exit runs on_tuning_end -> stop_all -> mark_running_job_as_stopped; status counters equal the cardinalities on tables of <= 3 trials.",
             "Interface contracts of contracts/iface.py assumed; callbacks / print_best_metric_found / _save_metadata assumed not to raise and to have no effect on the loop; loop iterations bounded; real-time criteria treated as abstract.", "5/C12"),
+    "C13": ("proof", "contract-based deductive verification (pyvc VCs from the real AST, z3/cvc5) of the searchers' pending/failed bookkeeping with quantified frame clauses; bounded symbolic execution with abstract collaborators and ghost protocol state for the tuner and scheduler layers",
+            "Unbounded: GPMultiFidelitySearcher.cleanup_pending / evaluation_failed and TuningJobState.append_pending for pending lists of any length (the failed trial's entries disappear, every other trial's stay, the trial is marked failed). Bounded: one scheduler notification per failure and the failure limit in Tuner (C01/C12 contracts), rung / bracket bookkeeping of other trials (C04/C05 contracts), _handle_failure names a failed trial, a failed synchronous job is reported to its bracket as NaN.",
+            "A-REAL; interface contracts assumed for abstract collaborators; comprehension (filter) summary with its lemmas trusted; remove_pending's frame clause only bounded; DEHB and model-free searchers' exclusion lists are covered by C06 where built.", "5/C13"),
     "C04": ("proof", "contract-based deductive verification: VCs generated from the real AST (pyvc) with loop invariants and modular callee contracts, discharged by z3/cvc5; bounded-shape stand-in for the cost-aware variant and for witnesses",
             "Unbounded verification conditions (rung contents of any length, 0..3 rungs) for PromotionRungSystem (find/mark/schedule/add/report/remove) and PASHA's resource cap in on_task_schedule, from /repo's source on every run; cost-aware eligibility bounded (<=4 entries).",
             "A-REAL; SortedList contract trusted; number of rungs concrete in proof units; cost values non-negative; PASHA ranking/epsilon logic and DyHPO not covered; pyvc encoding and SMT solvers trusted.", "5/C04"),
